@@ -1,9 +1,10 @@
 ---------------------------- MODULE MCPacking ----------------------------
 (* Exhaustive small-scope pools for Packing (design level):
-     - the REPAIRED mechanism (last action per WIRE key, at least one NLRI per message) satisfies
-       every C11 property for every list of the pool and both group orders;
-     - the CODE-SHAPED mechanism satisfies them except exactly in the two known-finding shapes
-       (and those shapes are not over-broad: D_KFExact);
+     - the CODE-SHAPED mechanism (last action per WIRE key since f403483, at least one NLRI per
+       message since 9eb707a) satisfies every C11 property for every list of the pool and both
+       group orders (D_Repaired);
+     - sensitivity: each of the two repaired deviations, put back, breaks the property exactly in
+       its history shape (D_CodeExceptKF / D_KFExact: no clamp; D_OldDedupExact: local-id de-dup);
      - the fold that defines Expected equals its declarative definition.
    Pool "keys"  : repeated keys, local ids, kinds, two families, End-of-RIB (limit 4096).
    Pool "sizes" : one local id; attribute blocks that leave room for 2 / 0 / -1 worst-case NLRI
@@ -30,6 +31,9 @@ Dom ==
     [] Pool = "keys1" ->      \* one family, one prefix: every list up to MaxLen is EXECUTED on the code
          {Ann("v4", 0, i, a, 27 + 3 * a, "n4a") : i \in {1, 2}, a \in {1, 2}}
          \cup {Wd("v4", 0, i) : i \in {1, 2}} \cup {Ann("v4", 1, 1, 1, 30, "n4a"), EorChg("v4")}
+    [] Pool = "keysm" ->      \* IPv4 unicast whose next hop is carried only in MP_REACH_NLRI (m4a/m4b)
+         {Ann("v4", p, 1, 1, BaseAb("v4", nh) + 3, nh) : p \in {0, 1}, nh \in {"m4a", "m4b", "n4a"}}
+         \cup {Wd("v4", p, 1) : p \in {0, 1}}
     [] Pool = "keys6" ->
          {Ann("v6", 0, i, a, 20 + 3 * a, nh) : i \in {1, 2}, a \in {1, 2}, nh \in {"n6a", "n6al"}}
          \cup {Wd("v6", 0, i) : i \in {1, 2}} \cup {EorChg("v6")}
@@ -48,8 +52,8 @@ Ch == [i \in 1..Len(hist) |-> Concrete(Ap, hist[i])]
 
 Orders   == {"fwd", "rev"}
 Repaired(o) == [dedup |-> "wire", clamp |-> TRUE, order |-> o]
-Code(o)     == [dedup |-> "wire", clamp |-> FALSE, order |-> o]
-OldCode(o)  == [dedup |-> "local", clamp |-> FALSE, order |-> o]    \* before f403483 = mutant C11-localid-dedup
+Code(o)     == [dedup |-> "wire", clamp |-> FALSE, order |-> o]     \* before 9eb707a = mutant C11-v4-noroom-revert
+OldCode(o)  == [dedup |-> "local", clamp |-> FALSE, order |-> o]    \* before f403483 too = mutant C11-localid-dedup
 
 D_FoldIsDecl == Expected(S, Ch) = ExpectedDecl(S, Ch)
 
@@ -64,7 +68,7 @@ Facts(ch, out) ==
    eo  |-> [f \in Families |-> EorOutAt(out.msgs, f)],
    rep |-> UNION {IF out.msgs[i].sent THEN {} ELSE MsgKeys(out.msgs[i]) : i \in 1..Len(out.msgs)}]
 
-(* the code-shaped mechanism: everything holds, except what known finding KF-C11-v4-noroom
+(* the mechanism without the clamp: everything holds, except what finding C11-v4-noroom
    describes (tol = TRUE additionally tolerates the local-id shape, for the old de-duplication) *)
 CodeOk(ch, out, tol) ==
   LET x == Facts(ch, out) IN
@@ -78,13 +82,13 @@ CodeOk(ch, out, tol) ==
                  \/ (V4NoRoom(S, ch[x.e[k].idx]) /\ x.v[k].st # "route")
                  \/ (tol /\ LocalIdShape(S, ch, k, x.e[k].idx))
 
-(* NOT an invariant: the code-shaped mechanism violates the property in the known-finding shape;
-   kept so that the sensitivity of the pools can be re-checked by hand *)
+(* NOT an invariant: the unclamped mechanism violates the property in the no-room shape; kept so
+   that the sensitivity of the pools can be re-checked by hand *)
 D_CodeStrict == \A o \in Orders : AllProps(S, Ch, Pack(S, Code(o), Ch))
 
 D_CodeExceptKF == \A o \in Orders : CodeOk(Ch, Pack(S, Code(o), Ch), FALSE)
 
-(* the known-finding shape is exact: a fitting route without room is really lost, a list with a
+(* the no-room shape is exact: a fitting route without room is really lost, a list with a
    surviving negative quotient really panics (and no other list does) *)
 D_KFExact ==
   LET ch == Ch
